@@ -80,6 +80,13 @@ C04State(j) ==
        /\ (\E q \in 1..Len(Rec[j].post.xid) : Rec[j].post.xid[q][4] \/ Rec[j].post.xid[q][3] = 0
                                                 \/ (Rec[j].post.xid[q][3] <= Len(P) /\ P[Rec[j].post.xid[q][3]].k = "rm"))
              => Report(j, "C04", <<"xml_id_node hands out a removed node", Rec[j].post.xid>>)
+       \* a document that this very call created (a clone) is made of new nodes only: what its xml:id index hands out lies
+       \* inside it (C12: "shares nothing with the source")
+       /\ (Rec[j].op \in {"clone_node", "clone_with_prefixes"} /\ sd = "none"
+            /\ \E q \in 1..Len(Rec[j].post.xid) :
+                  LET dq == Rec[j].post.xid[q][1]  fq == Rec[j].post.xid[q][3] IN
+                  dq > Len(PreOf(j).n) /\ dq <= Len(P) /\ fq >= 1 /\ fq <= Len(P) /\ fq \notin Subtree(P, dq))
+             => Report(j, "C12", <<"xml_id_node of the clone hands out a node outside the clone", Rec[j].post.xid>>)
 
 C04Step(j) ==
     LET N == PreOf(j).n  P == Rec[j].post.n
